@@ -2,6 +2,7 @@ import GormModel.Drv.Util
 import GormModel.Model.SchemaCache
 import GormModel.Model.WhereSwap
 import GormModel.Model.SharedCell
+import GormModel.Model.StmtWait
 open Lean
 namespace Gorm.Drv
 open Gorm.SchemaCache
@@ -83,6 +84,24 @@ def parseItem (j : Json) : Option WhereSwap.Item :=
     let inner ← (← jArr? j).toList.mapM parseEK
     some (.andGroup inner)
 
+def swResName : SC.Res → String
+  | .rows => "rows" | .prepErr => "prepErr" | .useErr => "useErr" | .badConn => "badConn"
+  | .invalidDB => "invalidDB" | .stmtClosed => "stmtClosed" | .nilStmt => "nilStmt" | .done => "done"
+
+def swViaName : SW.Via → String
+  | .none => "own" | .fast => "fast" | .double => "double"
+
+def swAns? (j : Json) : Option SC.Ans :=
+  match jStr? j with
+  | some "ok" => some .ok
+  | some "err" => some .err
+  | some "bad" => some .bad
+  | _ => none
+
+def swAct? (j : Json) : Option SC.Act := do
+  let p ← jArr? j
+  some (.thr (← jNat? (arg p 0)) (← swAns? (arg p 1)))
+
 end HC07
 
 open HC07 in
@@ -125,6 +144,25 @@ def handleC07 (op : String) (args : Array Json) : Option Json := do
     let idxs := List.range ks.length
     let perm := WhereSwap.after (fun i => ks.getD i .other) idxs
     some (Json.mkObj [("inner", Json.bool inner), ("perm", natListJ perm), ("writes", natListJ (WhereSwap.writes ks))])
+  | "sw.run" =>
+    -- ["sw.run", nThreads, tx, [[t, ans]…], drainAns]: nThreads goroutines run the same Exec/Query of ONE text through one
+    -- PreparedStmtDB (tx: through a PreparedStmtTX each); the forced prefix is followed by round-robin steps with `drainAns`;
+    -- wait-site configuration = the regenerated one (SW.genWCfg).  Result per goroutine + the lookup branch it went through.
+    let n ← jNat? (arg args 1)
+    let tx ← jBool? (arg args 2)
+    let pre ← (← jArr? (arg args 3)).toList.mapM swAct?
+    let da ← swAns? (arg args 4)
+    let ops := (List.range n).map fun _ => SC.Op.use 0 0 tx
+    let drain := (List.range 12).flatMap fun _ => (List.range n).map fun t => SC.Act.thr t da
+    let w := SW.wrun (SW.winit ops 1 SC.genCfg SW.genWCfg) (pre ++ drain)
+    some (Json.mkObj [
+      ("results", strListJ ((List.range n).map fun t => match SC.result w.base t with | some r => swResName r | none => "running")),
+      ("via", strListJ ((List.range n).map fun t =>
+        match (w.base.threads t).ent with
+        | some e => if (w.base.entries e).owner == t then "own" else swViaName (w.via t)
+        | none => swViaName (w.via t))),
+      ("preps", natJ (SC.prepCount w.base 0 0)),
+      ("cfg", Json.arr #[Json.bool SW.genWCfg.errFast, Json.bool SW.genWCfg.errDouble])])
   | "cell.sched" =>
     -- ["cell.sched", sched]: the save/replace/restore protocol of DB.Scan under a schedule, in the mode the regenerated
     -- fact says the tree uses; `cell` = 0 (handle's own logger) or t+1 (recorder of goroutine t)
